@@ -320,42 +320,59 @@ func StructLitFields(a *ssa.Alloc) (map[string]ssa.Value, bool) {
 	if !ok {
 		return nil, false
 	}
-	st, ok := pt.Elem().Underlying().(*types.Struct)
-	if !ok {
+	if _, ok := pt.Elem().Underlying().(*types.Struct); !ok {
 		return nil, false
 	}
 	fields := map[string]ssa.Value{}
-	for _, r := range *a.Referrers() {
-		switch u := r.(type) {
-		case *ssa.FieldAddr:
-			name := st.Field(u.Field).Name()
-			for _, rr := range *u.Referrers() {
-				switch s := rr.(type) {
-				case *ssa.Store:
-					if s.Addr != u {
-						return nil, false
-					}
-					if _, dup := fields[name]; dup {
-						return nil, false
-					}
-					fields[name] = s.Val
-				case *ssa.UnOp, *ssa.DebugRef:
-				default:
-					return nil, false
+	var walk func(base ssa.Value, prefix string) bool
+	walk = func(base ssa.Value, prefix string) bool {
+		for _, r := range *base.Referrers() {
+			switch u := r.(type) {
+			case *ssa.FieldAddr:
+				if u.X != base {
+					return false
 				}
+				name := prefix + fieldNameOf(u.X.Type(), u.Field)
+				for _, rr := range *u.Referrers() {
+					switch s := rr.(type) {
+					case *ssa.Store:
+						if s.Addr != u {
+							return false
+						}
+						if _, dup := fields[name]; dup {
+							return false
+						}
+						fields[name] = s.Val
+					case *ssa.UnOp, *ssa.DebugRef:
+					case *ssa.FieldAddr:
+						// nested literal: Outer{Inner: T{F: v}} is written through &x.Inner.F
+					default:
+						return false
+					}
+				}
+				// nested field addresses
+				nested := false
+				for _, rr := range *u.Referrers() {
+					if _, ok := rr.(*ssa.FieldAddr); ok {
+						nested = true
+					}
+				}
+				if nested && !walk(u, name+".") {
+					return false
+				}
+			case *ssa.Store:
+				if base == ssa.Value(a) && u.Addr == base {
+					return false
+				}
+			case *ssa.UnOp, *ssa.DebugRef:
+			default:
+				// address escapes (call argument etc.): still a literal as far
+				// as its initial fields are concerned
 			}
-		case *ssa.Store:
-			if u.Addr == a {
-				return nil, false
-			}
-		case *ssa.UnOp, *ssa.DebugRef:
-		default:
-			// address escapes (call argument etc.) — still a literal as far as
-			// its initial fields are concerned, but not safe to treat as value
-			_ = u
 		}
+		return true
 	}
-	if len(fields) == 0 {
+	if !walk(a, "") || len(fields) == 0 {
 		return nil, false
 	}
 	return fields, true
@@ -587,9 +604,19 @@ func (d *D) arrayLit(a *ssa.Alloc) string {
 			return ""
 		}
 		idx, _ := constant.Int64Val(c.Value)
+		if idx < 0 || int(idx) >= len(elems) {
+			continue
+		}
+		direct := false
 		for _, rr := range *ia.Referrers() {
-			if st, ok := rr.(*ssa.Store); ok && st.Addr == ia && idx >= 0 && int(idx) < len(elems) {
+			if st, ok := rr.(*ssa.Store); ok && st.Addr == ia {
 				elems[idx] = d.Of(st.Val)
+				direct = true
+			}
+		}
+		if !direct {
+			if nf := d.nestedFields(ia); nf != "" {
+				elems[idx] = nf
 			}
 		}
 	}
@@ -638,4 +665,40 @@ func onlyWholeStore(a *ssa.Alloc) ssa.Value {
 		return val
 	}
 	return nil
+}
+
+// nestedFields renders the fields written through field addresses derived
+// from base (an element or struct address filled in place) as {a:v,b.c:w}.
+func (d *D) nestedFields(base ssa.Value) string {
+	vals := map[string]string{}
+	var walk func(b ssa.Value, prefix string)
+	walk = func(b ssa.Value, prefix string) {
+		for _, r := range *b.Referrers() {
+			fa, ok := r.(*ssa.FieldAddr)
+			if !ok || fa.X != b {
+				continue
+			}
+			name := prefix + fieldNameOf(fa.X.Type(), fa.Field)
+			for _, rr := range *fa.Referrers() {
+				if st, ok := rr.(*ssa.Store); ok && st.Addr == fa {
+					vals[name] = d.Of(st.Val)
+				}
+			}
+			walk(fa, name+".")
+		}
+	}
+	walk(base, "")
+	if len(vals) == 0 {
+		return ""
+	}
+	var names []string
+	for n := range vals {
+		names = append(names, n)
+	}
+	sort.Strings(names)
+	var parts []string
+	for _, n := range names {
+		parts = append(parts, n+":"+vals[n])
+	}
+	return "{" + strings.Join(parts, ",") + "}"
 }
